@@ -452,6 +452,37 @@ func c08Items(c *core.Collector, x *Ctx) {
 		}
 	})
 	c.Count("single_item_cases", int64(len(jobs)))
+	// items whose total length (28-byte block + additional information) sits at the edges of the 0x0704 item length word:
+	// 255/256/257, 32767/32768 and 65533..65535 bytes, filled with unknown items of up to 255 content bytes (a batch that
+	// large reaches the server as a sub-packaged message). Through 0x0200 and as first/last item of a 0x0704 batch.
+	bigTargets := []int{255, 256, 257, 4095, 4096, 32767, 32768, 65533, 65534, 65535}
+	core.ParallelFor(len(bigTargets)*2, ncpu(), func(i int) {
+		r := core.NewRand(c.Seed, "c08big", uint64(i))
+		target := bigTargets[i%len(bigTargets)]
+		blk := c08Block(r, r.U32(), r.U32())
+		rem := target - 28
+		var items []c08Item
+		id := byte(0xE1)
+		for rem > 0 {
+			l := 255
+			if rem < 257 {
+				l = rem - 2
+			}
+			if rem-(l+2) == 1 { // never leave a single byte over
+				l--
+			}
+			if l < 0 {
+				break
+			}
+			items = append(items, c08Item{id, core.Hex(r.Bytes(l))})
+			rem -= l + 2
+			if id++; id == 0 {
+				id = 0xE1
+			}
+		}
+		c08Run(c, blk, items, false, true, "big-item", "0200", "0704")
+		c.Count("big_item_cases", 1)
+	})
 	// sequences
 	n := c.N(20000, 1500000)
 	stdIDs := []byte{1, 2, 3, 4, 5, 6, 0x11, 0x12, 0x13, 0x25, 0x2a, 0x2b, 0x30, 0x31}
